@@ -49,6 +49,12 @@ pub fn dash_model(polys: &[Poly], dashes: &[f32], offset: f32) -> Option<DashMod
         return None;
     }
     let s0 = (offset as f64).rem_euclid(period);
+    // The library adds the entries and reduces the offset in f32: the phase it starts from differs from the
+    // f64 phase by up to (offset / period) x (rounding of the period), about 1e-3 at an offset of 10^4.
+    // A dash boundary closer than that to a vertex or to an end of a subpath is a coincidence whose outcome
+    // (is there a sliver of a piece, with its caps, or not?) rounding decides.  (Offsets beyond 2e4 come with
+    // exactly representable periods, see the generator.)
+    let near = 1e-3 + 4e-7 * (offset.abs() as f64).min(2.0e4);
     // phase -> (on?, distance to the end of the current entry)
     let state_at = |phase: f64| -> (usize, f64) {
         let mut p = phase.rem_euclid(period);
@@ -84,14 +90,13 @@ pub fn dash_model(polys: &[Poly], dashes: &[f32], offset: f32) -> Option<DashMod
         // float coincidence too: whether "a new dash starts exactly here" is a rounding matter
         {
             let (i0, r0) = state_at(s0);
-            if r0 < 1e-3 || d[i0] - r0 < 1e-3 {
+            if r0 < near || d[i0] - r0 < near {
                 m.boundary_near_vertex = true;
             }
-            if poly.closed {
-                let (i1, r1) = state_at(s0 + total);
-                if r1 < 1e-3 || d[i1] - r1 < 1e-3 {
-                    m.boundary_near_vertex = true;
-                }
+            // the end of the subpath (open or closed): a boundary just before or after it makes or omits a sliver
+            let (i1, r1) = state_at(s0 + total);
+            if r1 < near || d[i1] - r1 < near {
+                m.boundary_near_vertex = true;
             }
         }
         // on-intervals in arc length
@@ -143,11 +148,11 @@ pub fn dash_model(polys: &[Poly], dashes: &[f32], offset: f32) -> Option<DashMod
         };
         for (a, b) in &intervals {
             for c in &cum[1..cum.len() - 1] {
-                if (a - c).abs() < 1e-3 || (b - c).abs() < 1e-3 {
+                if (a - c).abs() < near || (b - c).abs() < near {
                     m.boundary_near_vertex = true;
                 }
             }
-            if poly.closed && ((a - 0.0).abs() < 1e-3 && *a > 0.0 || (b - total).abs() < 1e-3 && *b < total) {
+            if (a - 0.0).abs() < near && *a > 0.0 || (b - total).abs() < near && *b < total || (total - a) < near || *b < near {
                 m.boundary_near_vertex = true;
             }
         }
@@ -324,6 +329,39 @@ pub fn check(c: &Case, seams_open: bool) -> CheckResult {
         }
         o.class("pieces-matched");
     }
+    // ---- (a') aligned class with integer geometry throughout (every segment length, the closing segment
+    // included, every dash entry and the offset are integers): the dasher's f32 arithmetic is exact, so ties
+    // (a dash boundary exactly on a vertex, on the subpath's end or on the closing point) are not a rounding
+    // matter and the piece structure must be the model's: same number of pieces of positive length, each with
+    // the same end points, length and closedness.  In particular an 'on' dash that ends exactly at the closing
+    // point of a closed subpath whose pattern starts 'on' is joined to the piece at the beginning.
+    let all_int = c.aligned
+        && style.dash_offset.fract() == 0.0
+        && dashes.iter().all(|d| d.fract() == 0.0)
+        && polys.iter().all(|p| {
+            let n = p.pts.len();
+            let m = if p.closed { n } else { n - 1 };
+            (0..m).all(|i| dist(p.pts[i], p.pts[(i + 1) % n]).fract() == 0.0)
+        });
+    if all_int {
+        let real: Vec<&(Vec<P>, bool)> = out.iter().filter(|(p, closed)| p.len() >= 2 && poly_len(p, *closed) > 0.0).collect();
+        let mps: Vec<&DashPiece> = model.pieces.iter().filter(|m| m.len > 0.0).collect();
+        let describe = || format!("output pieces {:?}; model pieces {:?}", real.iter().map(|(p, c)| (p[0], p[p.len() - 1], *c)).collect::<Vec<_>>(), mps.iter().map(|m| (m.poly.pts[0], m.poly.pts[m.poly.pts.len() - 1], m.poly.closed)).collect::<Vec<_>>());
+        if real.len() != mps.len() {
+            return Err(format!("integer geometry: the dasher emitted {} pieces of positive length, the arc-length model has {} (dash {:?}, offset {}); {}", real.len(), mps.len(), dashes, style.dash_offset, describe()));
+        }
+        for mp in &mps {
+            let (a, b) = (mp.poly.pts[0], mp.poly.pts[mp.poly.pts.len() - 1]);
+            let found = real.iter().any(|(p, closed)| {
+                *closed == mp.poly.closed && (poly_len(p, *closed) - mp.len).abs() < 1e-3 && (mp.poly.closed || (dist(p[0], a) < 1e-3 && dist(p[p.len() - 1], b) < 1e-3))
+            });
+            if !found {
+                return Err(format!("integer geometry: the model's piece from {:?} to {:?} (length {}, closed {}) is not in the dasher output (dash {:?}, offset {}); {}", a, b, mp.len, mp.poly.closed, dashes, style.dash_offset, describe()));
+            }
+        }
+        o.class("integer-geometry-structure-compared");
+        o.class_if(model.features.iter().any(|f| *f == "closed-end-joined-to-start" || *f == "closed-all-on"), "integer-geometry-closed-joined-or-all-on");
+    }
     // ---- (b) pixels (generic class only)
     if !c.aligned && !model.boundary_near_vertex {
         let mut dt = DrawTarget::new(c.w, c.h);
@@ -480,7 +518,7 @@ pub fn property(ctx: &Ctx) -> Property {
         id: "C09",
         rule: "cases: 1-3 polyline subpaths (open/closed, 2-5 vertices, segments >= 1 px), dash arrays of 1-6 positive entries (0.5..30 plus entries longer than the whole path; odd lengths), offsets 0 / small / beyond the period / 10^3..10^4 / negative / huge (10^5..10^15, either sign), widths 1-6, all caps and joins, identity or similarity transform; a generic class (random floats) and an aligned class (integer lengths and dashes so that dash boundaries land exactly on vertices, subpath ends and the closing point); plus arrays that must disable the stroke (zero, negative or NaN total). Oracle (a), both classes, through the cfg(raqote_verif) hook on dash_path: every output vertex lies on the input path, total 'on' length equals that of an f64 arc-length dasher (pattern repeated cyclically, odd arrays doubled, offset modulo the period with mathematical sign, restarted per subpath), a closed subpath that is 'on' throughout comes out as one closed outline, and in the generic class every model piece (incl. the piece joined across the start of a closed subpath) appears with the same end points and length. Oracle (b), generic class: the model's pieces are turned into C04's stroke region and every pixel more than 0.75 px inside / outside is judged. Non-trivial: >= 2 dashes on a subpath and one of: closed subpath, dash spanning a corner, offset != 0, odd array, dash longer than the subpath, dash boundary on the closing segment; distinct by hash of the case.",
         assumptions: vec![
-            "pixel judgement excludes the aligned class and any case with a dash boundary within 1e-3 of a vertex (whether an epsilon-long piece turns a corner is decided by f32 rounding)",
+            "pixel judgement excludes the aligned class and any case with a dash boundary within 1e-3 (+4e-7 x |offset|, the f32 phase error) of a vertex or of either end of a subpath (whether an epsilon-long piece turns a corner is decided by f32 rounding)",
             "the sub-pixel seam finding of C04 applies to dashed strokes with the same signature",
         ],
         parts: vec![part("dash", 40_000, 800_000, strategy, move |c| check(c, seams_open)), part("rejected", 600, 10_000, rejected_strategy, move |c| check(c, seams_open))],
